@@ -232,7 +232,6 @@ where
                         // to as_ is safe.
                         TIdx(tidx.as_()),
                     );
-                    state_actions.set(off, true);
                     match StateTable::decode(actions[off]) {
                         Action::Reduce(r_pidx) => {
                             if pidx == grm.start_prod() && tidx == usize::from(grm.eof_token_idx())
@@ -289,7 +288,6 @@ where
                     Symbol::Token(s_tidx) => {
                         // Populate shifts
                         let off = actions_offset(grm.tokens_len(), stidx, s_tidx);
-                        state_actions.set(off, true);
                         match StateTable::decode(actions[off]) {
                             Action::Shift(x) => assert!(*ref_stidx == x),
                             Action::Reduce(r_pidx) => {
@@ -337,15 +335,18 @@ where
                 let off = actions_offset(grm.tokens_len(), stidx, tidx);
                 match StateTable::decode(actions[off]) {
                     Action::Reduce(pidx) => {
+                        state_actions.set(off, true);
                         let prod_len = grm.prod(pidx).len();
                         let ridx = grm.prod_to_rule(pidx);
                         nt_depth.insert((ridx, prod_len), pidx);
                     }
                     Action::Shift(_) => {
+                        state_actions.set(off, true);
                         only_reduces = false;
                         state_shifts.set(off, true);
                     }
                     Action::Accept => {
+                        state_actions.set(off, true);
                         only_reduces = false;
                     }
                     Action::Error => (),
